@@ -19,14 +19,16 @@ def abf_conf(case):
               "  distanceZ {", "    main { atomNumbers %d }" % (d + 1), "    ref { dummyAtom (0,0,0) }",
               "    axis (0,0,1)", "    oneSiteTotalForce on", "  }", "}"]
     L += ["abf {", "  name a", "  colvars " + " ".join("v%d" % d for d in range(nd)),
-          "  fullSamples %d" % case.get("full", 2), "  applyBias %s" % ("on" if case.get("apply", True) else "off"),
-          "  shared on", "  sharedFreq %d" % case["freq"], "}"]
+          "  fullSamples %d" % case.get("full", 2), "  applyBias %s" % ("on" if case.get("apply", True) else "off")]
+    if not case.get("integrate", True):
+        L += ["  integrate off"]
+    L += ["  shared on", "  sharedFreq %d" % case["freq"], "}"]
     return L
 
 
 def abf_setup(case, first=True):
     L = ["natoms %d" % case["nd"], "samestep 1", "includecv 1", "new", "config EOF"] + abf_conf(case) + ["EOF",
-         "show cv 0 energy 0 bias 0 atomf 0"]
+         "show cv 0 energy 0 bias 0 atomf 0"] + (["outprefix out"] if case.get("output") else [])
     return L
 
 
@@ -107,6 +109,11 @@ def run_abf(exe, case, scratch, timeout=30.0):
                 else:
                     r = T.walkers[w].collect(tok, timeout)
                     out[k] = (w, [x for x in r if x.startswith("STEP")], parse_shared(r))
+            elif ev[0] == "o":
+                # end-of-run output of walker w (write_output_files: .count/.grad/.pmf of the local and, on replica 0, of the
+                # shared grids); changes nothing in the grids
+                r = T.walkers[w].do(["postrun", "dumpshared a"], timeout)
+                out[k] = (w, [x for x in r if x.startswith("POSTRUN")], parse_shared(r))
             elif ev[0] == "r":
                 fmt = ev[2]
                 r = T.walkers[w].do(["save %s st%d" % (fmt, k)] + abf_setup(case) + ["load st%d" % k, "dumpshared a"], timeout)
